@@ -4,3 +4,7 @@ import PeptVerif.Props.C20Ext
 #print axioms Pept.C20Ext.mod_dict_determines_text
 #print axioms Pept.C20Ext.mod_dict_sensitive
 #print axioms Pept.C20Ext.add_empty_dict
+#print axioms Pept.C20Ext.lookup_popMods
+#print axioms Pept.C20Ext.intEntries_popMods
+#print axioms Pept.C20Ext.pop_mods_add_back
+#print axioms Pept.C20Ext.pop_mods_add_back_iff
